@@ -123,6 +123,8 @@ def compile_property(pid):
     """Compile Properties/<pid>.v afresh; return (obligations, discharged, details, raw)."""
     import fcntl
     src = os.path.join(COQ, 'Properties', pid + '.v')
+    if not os.path.exists(src):
+        return 1, 0, [{'theorem': '?', 'status': 'no Properties/%s.v' % pid}], ''
     with open(_LOCK, 'w') as lk:
         fcntl.flock(lk, fcntl.LOCK_EX)
         rc, out = sh('timeout 900 coqc -Q . PLV Properties/%s.v 2>&1' % pid, cwd=COQ, timeout=1000)
@@ -235,7 +237,7 @@ def vm_crosscheck(pid, wires, outs, limit=150):
                 'Import ListNotations.\nOpen Scope Z_scope.\n'
                 'Definition cases : list (Z * list Z) := [\n %s].\n'
                 'Definition expected : list (list Z) := [\n %s].\n'
-                'Goal map (fun c => dispatch (fst c) (snd c)) cases = expected.\n'
+                'Goal map (fun c => model_dispatch (fst c) (snd c)) cases = expected.\n'
                 'Proof. vm_compute. reflexivity. Qed.\n' % (cases, exps))
     rc, out = sh('timeout 600 coqc -Q %s PLV %s 2>&1' % (COQ, fn), cwd=d, timeout=700)
     for ext in ('.v', '.vo', '.vok', '.vos', '.glob'):
